@@ -181,6 +181,13 @@ def degrees(rnd):
         return rnd.choice([0.0, 1.0, 0.25, 0.5, rnd.random(), rnd.random()])
     if c < 0.6:
         return rnd.choice([nan, inf, -inf])
+    if rnd.random() < 0.03:
+        # several thousand rows (sparse / block-wise fast paths), rows that do not fire among them
+        n = rnd.choice([4096, 4097, 8192, 10000])
+        big = np.random.default_rng(rnd.randrange(10**6)).random(n)
+        big[::3] = 0.0
+        big[1::97] = nan
+        return big
     batch = np.array([rnd.choice([0.0, 1.0, nan, inf, -inf, rnd.random(), rnd.random()]) for _ in range(rnd.choice([2, 3, 5, 6, 6]))])
     if batch.size == 6 and rnd.random() < 0.6:
         return batch.reshape(rnd.choice([(2, 3), (3, 2), (6, 1), (1, 6)]))  # a grid of degrees (inputs given as a mesh)
@@ -238,6 +245,19 @@ def run(ctx):
                         ctx.violation(f"trigger raised {type(ex).__name__} on a loaded rule", {"rule": text, "degree": d}, "no error", repr(ex)[:200])
                         continue
                     got = {ov.name: sorted((a.term.name, tuple(np.asarray(a.degree, dtype=float).ravel().tolist())) for a in ov.fuzzy.terms) for ov in target.output_variables}
+                    if di == 1 and target.output_variables:
+                        # an output variable is switched off / on after the rule has been triggered: the next trigger goes by the
+                        # flag as it is now
+                        flipped = rnd.choice(target.output_variables)
+                        flipped.enabled = not flipped.enabled
+                        for ov in target.output_variables:
+                            ov.fuzzy.clear()
+                        try:
+                            rule.trigger(implication)
+                        except Exception:
+                            pass
+                        flipped.enabled = not flipped.enabled
+                        ctx.hit("event:variable enabled flag changed between two triggers of a loaded rule")
                     if di == 0:
                         # the same rule triggered again, now under another implication operator (the block was reconfigured) and
                         # without clearing the fuzzy outputs: new activations, carrying the new operator, are added to the old ones
@@ -285,7 +305,7 @@ def run(ctx):
                 ctx.sample("consequent", {"rule": text, "rule_enabled": enabled, "degrees": degs, "contributions": results.get(0)})
         probe.report(ctx)
         reach.report(ctx)
-    ctx.require("hook:Rule.trigger", "hook:Consequent.modify", "hook:Activated.degree.setter", "compare:appended terms", "law:permutation", "piece:disabled rule", "piece:conclusion on a disabled variable", "piece:hedged conclusion", "piece:hedge on an earlier conclusion of several", "piece:rule whose load was rejected", "event:triggered again under another implication operator", "degree:batch", "degree:grid", "route:rule of a duplicated engine (copy)", "route:rule of a duplicated engine (deepcopy)", "degree:nan", "degree:inf", "degree:zero", "degree:partial")
+    ctx.require("hook:Rule.trigger", "hook:Consequent.modify", "hook:Activated.degree.setter", "compare:appended terms", "law:permutation", "piece:disabled rule", "piece:conclusion on a disabled variable", "piece:hedged conclusion", "piece:hedge on an earlier conclusion of several", "piece:rule whose load was rejected", "event:triggered again under another implication operator", "event:variable enabled flag changed between two triggers of a loaded rule", "degree:batch", "degree:grid", "route:rule of a duplicated engine (copy)", "route:rule of a duplicated engine (deepcopy)", "degree:nan", "degree:inf", "degree:zero", "degree:partial")
 
 
 def passive(ctx, fl, probe):
